@@ -5,7 +5,10 @@ SPEC = {
                    "channels are decoded by the real caption decoder (vbi_decode -> src/caption.c) and every page "
                    "fetched at every comparison point is compared cell by cell with an independent reference "
                    "display-memory model; held means: no divergence on the histories executed, other than the "
-                   "named deviations recorded as known findings"),
+                   "named deviations recorded as known findings. The library's second EIA-608 implementation "
+                   "(src/cc608_decoder.c, internal API) is driven by the same generated histories followed by a suffix that fixes "
+                   "mode, memory and cursor itself (RDC or RCL, EDM, an indent PAC); the addressed row must then hold exactly what "
+                   "15.119 says for text at the cursor, DER, BS, TO, EDM and EOC (local postconditions, no model of the history needed)"),
     "level_note": ("trusted base: the reference model harness/c08_model.h, written from the rule texts quoted verbatim "
                    "in /repo/test/cc608-{roll-up,attributes,charsets}.xml (47 CFR 15.119 (d),(e),(f),(h),(i),(n); "
                    "EIA-608-B 6.2, 6.4.2, Annex C.4/C.7/C.11/C.13/C.14/C.15) and, for Text Mode / CR in pop-on and "
@@ -29,12 +32,17 @@ SPEC = {
         "a named quirk explains a divergence only if the model with that set of quirks switched on matches the decoder cell by cell over the whole history",
         "EIA-608-B 6.4.2 extended characters are an optional decoder feature: a decoder that ignores them conforms",
         "codes addressed to a data channel that was not selected by a resume command, and XDS on field 2, are not generated",
+        "src/cc608_decoder.c is judged by local postconditions only: compared with the reference model over whole histories it diverges on about half of them (first cause: a colour PAC keeps the cursor column there; mode cc608 of the harness, a triage aid, attributes that one under Q-colour-PAC-keeps-column), and vbi_fetch_cc_page never executes it; its remaining behaviour is not claimed",
     ],
     "jobs": [
         {"name": "asan", "harness": "c08_cc608", "srcs": ["harness/c08_cc608.c"], "flavour": "asan",
          "cases": {"quick": 48000, "thorough": 3000000}, "budget": 20},
         {"name": "witness", "harness": "c08_cc608", "srcs": ["harness/c08_cc608.c"], "flavour": "asan",
          "cases": {"quick": 46, "thorough": 46}, "mode": "witness", "budget": 20},
+        # the library's second EIA-608 implementation (src/cc608_decoder.c, internal API): local postconditions of
+        # put / DER / BS / TO / EDM / EOC at a cursor fixed by an indent PAC, after an arbitrary generated history
+        {"name": "cc608-local", "harness": "c08_cc608", "srcs": ["harness/c08_cc608.c"], "flavour": "asan",
+         "cases": {"quick": 32000, "thorough": 1000000}, "mode": "cc608local", "budget": 20},
     ],
     "min_distinct": 300,
     "min_counters": {
@@ -48,5 +56,6 @@ SPEC = {
         "witness_sequences": 23,
         "pop-on": 500, "roll-up": 500, "paint-on": 500, "text": 500, "wild": 1000,
         "edge-last-column": 500, "edge-base-row": 500, "edge-command-pairs": 500,
+        "local_cases": 20000, "local_put": 2000, "local_der": 2000, "local_bs": 2000, "local_to": 2000, "local_edm": 2000, "local_eoc": 2000,
     },
 }
